@@ -123,15 +123,18 @@ impl Members {
     // cluster member addresses has changed
     pub fn remove_member(&mut self, actor: &Actor) -> bool {
         let effectively_down = if let Some(member) = self.states.get(&actor.id()) {
-            member.ts == actor.ts()
+            // down for the identity we list, or for a newer identity of the
+            // same actor (which supersedes the one we list)
+            member.ts.to_duration() <= actor.ts().to_duration()
         } else {
             // Shouldn't happen
             false
         };
 
-        if effectively_down {
-            self.by_addr.remove(&actor.addr());
-            self.states.remove(&actor.id());
+        if effectively_down && let Some(member) = self.states.remove(&actor.id()) {
+            if self.by_addr.get(&member.addr) == Some(&actor.id()) {
+                self.by_addr.remove(&member.addr);
+            }
         }
 
         effectively_down
